@@ -1,0 +1,38 @@
+//go:build verif
+
+// Contracts for package version (comment-only, read by /verif/govc; never compiled
+// into the product: the build tag "verif" is not set by any build of peerswap).
+package version
+
+// C29: the stored database version (ghost mirror of the bbolt bucket) changes
+// only when no persisted swap is active.
+//@ ghost vExists bool
+//@ ghost vStored string
+//@ ghost hasActive bool
+
+// the bbolt-backed store is outside the verifier: assumed map-like behaviour
+//@ func (*versionStore).GetVersion
+//@ trusted
+//@ ensures result1 == nil ==> (ghost.vExists && result0 == ghost.vStored)
+//@ ensures result1 == ErrDoesNotExist ==> !ghost.vExists
+//@ ensures (result1 != nil && result1 != ErrDoesNotExist) ==> true
+//@ assigns nothing
+
+//@ func (*versionStore).SetVersion
+//@ trusted
+//@ ensures result == nil ==> (ghost.vExists && ghost.vStored == version)
+//@ ensures result != nil ==> (ghost.vExists == old(ghost.vExists) && ghost.vStored == old(ghost.vStored))
+//@ assigns ghost.vExists, ghost.vStored
+
+//@ interface ActiveSwapGetter.HasActiveSwaps
+//@ ensures result1 == nil ==> result0 == ghost.hasActive
+//@ assigns nothing
+
+//@ func (*VersionService).SafeUpgrade
+//@ property C29
+//@ requires vs != nil && vs.versionStore != nil
+//@ ensures @C29 changed-only-when-idle: (ghost.vExists != old(ghost.vExists) || ghost.vStored != old(ghost.vStored)) ==> !ghost.hasActive
+//@ ensures @C29 refuses-with-active-swaps: (ghost.hasActive && !(old(ghost.vExists) && old(ghost.vStored) == version)) ==> result != nil
+//@ ensures @C29 upgraded: result == nil ==> (ghost.vExists && ghost.vStored == version)
+//@ ensures @C29 same-version-untouched: (old(ghost.vExists) && old(ghost.vStored) == version) ==> (ghost.vExists && ghost.vStored == old(ghost.vStored))
+//@ assigns ghost.vExists, ghost.vStored
